@@ -313,13 +313,14 @@ func (val Value) Equals(other Value) Value {
 	case ty.IsSetType():
 		s1 := val.v.(set.Set[interface{}])
 		s2 := other.v.(set.Set[interface{}])
+		ety := ty.ElementType()
 		equal := true
 
 		// Two sets are equal if all of their values are known and all values
 		// in one are also in the other.
 		for it := s1.Iterator(); it.Next(); {
 			rv := it.Value()
-			if _, unknown := rv.(*unknownType); unknown { // "*unknownType" is the internal representation of unknown-ness
+			if !(Value{ty: ety, v: rv}).IsWhollyKnown() { // a member that is, or contains, an unknown value might equal anything
 				return unknownResult()
 			}
 			if !s2.Has(rv) {
@@ -328,7 +329,7 @@ func (val Value) Equals(other Value) Value {
 		}
 		for it := s2.Iterator(); it.Next(); {
 			rv := it.Value()
-			if _, unknown := rv.(*unknownType); unknown { // "*unknownType" is the internal representation of unknown-ness
+			if !(Value{ty: ety, v: rv}).IsWhollyKnown() {
 				return unknownResult()
 			}
 			if !s1.Has(rv) {
